@@ -43,7 +43,15 @@ class C04(Prop):
         return [{'kind': 'decode', 'proto': p, 'msg': list(m)} for p in PROTOS for m in cc.MALFORMED[:0]] + [
             {'kind': 'enc_req', 'proto': 'v2', 'method': 'm', 'args': jv.to_plain({}), 'id': 1},
             {'kind': 'enc_req', 'proto': 'v1', 'method': 'm', 'args': jv.to_plain({'a': 1}), 'id': 1},
-            {'kind': 'enc_resp', 'proto': 'loose', 'resp': ['err', -5, 'msg\n"'], 'id': None}]
+            {'kind': 'enc_resp', 'proto': 'loose', 'resp': ['err', -5, 'msg\n"'], 'id': None}] + [
+            # messages of one version that CARRY a message of another (a relay / gateway call): the nested version tag is data
+            {'kind': 'enc_req', 'proto': pr, 'method': 'relay', 'args': jv.to_plain([nested]), 'id': i}
+            for pr in ('v1', 'loose', 'v2') for i in (5, None)
+            for nested in ({'jsonrpc': '2.0', 'method': 'ping'}, {'jsonrpc': '1.0', 'method': 'ping', 'params': [], 'id': 1},
+                           [{'x': {'jsonrpc': '2.0'}}], {'result': 1, 'error': None, 'id': 2})] + [
+            {'kind': 'enc_resp', 'proto': pr, 'resp': ['res', jv.to_plain(nested)], 'id': 3}
+            for pr in ('v1', 'loose', 'v2')
+            for nested in ({'jsonrpc': '2.0', 'result': 1, 'id': 1}, [{'jsonrpc': '2.0'}], {'jsonrpc': '1.0'}, {'result': 1, 'error': None})]
 
     def generate(self, rng, n, tier):
         for p in PROTOS:
@@ -385,6 +393,38 @@ class C04(Prop):
             asyncio.set_event_loop(None)
         ctx['extra_evals'] += n
         ctx['notes'].append(f'auto-detecting connection vs connection of the detected protocol over short scripts: {n}')
+        # members of an array are handed to _process_request / _process_response one by one, whatever JSON value they are:
+        # a member that is not an object is refused with -32600 (and, on the request path, an error reply under id null)
+        nm = 0
+        for pname in PROTOS:
+            P = cc.proto_class(pname)
+            if not P.allow_batches:
+                continue            # (1.0 has no batches: no member ever reaches these functions on their own)
+            for member in (1, 0, -3, 1.5, 'x', '', None, True, False, [], [1, 2], [{'jsonrpc': '2.0', 'method': 'm'}]):
+                for path in ('_process_request', '_process_response'):
+                    nm += 1
+                    obs = None
+                    try:
+                        getattr(P, path)(member)
+                        obs = 'accepted'
+                    except jsonrpc.ProtocolError as e:
+                        reply = None
+                        if e.error_message is not None:
+                            try:
+                                reply = json.loads(e.error_message.decode())
+                            except Exception:
+                                reply = 'not JSON'
+                        ok = e.code == -32600 and (path == '_process_response' or (
+                            isinstance(reply, dict) and reply.get('id', 0) is None and isinstance(reply.get('error'), dict)
+                            and reply['error'].get('code') == -32600))
+                        obs = None if ok else f'ProtocolError {e.code} with reply {reply!r}'
+                    except Exception as e:
+                        obs = 'escaped: ' + type(e).__name__
+                    if obs and len([f for f in out if f.case.get('kind') == 'member']) < 2:
+                        out.append(Failure({'kind': 'member', 'proto': pname, 'member': jv.to_plain(member), 'path': path}, {'outcome': obs},
+                                           'a batch member that is not an object was not refused with -32600 (invalid request, reply under id null)'))
+        ctx['extra_evals'] += nm
+        ctx['notes'].append(f'non-object batch members through _process_request / _process_response: {nm}')
         return out
 
     def nontrivial(self, case, obs):
